@@ -242,6 +242,7 @@ def main(tier="quick", seed=0):
     quick = tier == "quick"
     rng = np.random.default_rng(seed + 6)
     ENTRIES.update({e.name: e for e in zoo.entries() + c05.extra_entries()})
+    ENTRIES.update({e.name: e for e in zoo.wrapper_entries(mcs=(0.5,)) if "exclude_non_subsample=False" in e.name})
     CLFS.update(_clfs())
     REGS.update(_regs())
     chk.model_check("Determinism", "MC_Determinism.cfg")
